@@ -83,7 +83,7 @@ def run(pid, tier, seed, spec):
         argv = [binp(), "run", "--seed", str(seed), "--shard", str(i), "--nshards", str(NSHARDS), "--random", str(random_n), "--hostile", str(hostile_n),
                 "--pinned", f"{V}/protomon/baseline/schema.json", "--shared", f"{V}/protomon/baseline/shared.json", "--enums", f"{V}/protomon/baseline/enums.json", "--out", out]
         procs.append((i, out, subprocess.Popen(argv, stdout=subprocess.PIPE, stderr=subprocess.PIPE, text=True)))
-    agg = {"field_probes": 0, "nested_probes": 0, "enumerations_checked": 0, "types_checked": 0, "evals": 0, "types_diffed": 0, "diff_evals": 0, "urls_checked": 0, "hostile_decoded": 0, "hostile_rejected": 0, "distinct_shapes": 0, "missing": 0}
+    agg = {"field_probes": 0, "nested_probes": 0, "wide_probes": 0, "enumerations_checked": 0, "types_checked": 0, "evals": 0, "types_diffed": 0, "diff_evals": 0, "urls_checked": 0, "hostile_decoded": 0, "hostile_rejected": 0, "distinct_shapes": 0, "missing": 0}
     viol, samples, unpinned, inconclusive = [], [], [], []
     for (i, out, p) in procs:
         try:
@@ -131,7 +131,7 @@ def run(pid, tier, seed, spec):
             "samples": samples[:4] or [{"note": "none"}],
             "exhaustive": False,
             "types_checked": agg["types_checked"], "types_with_reference_differential": agg["types_diffed"], "reference_differential_evaluations": agg["diff_evals"],
-            "type_urls_checked": agg["urls_checked"], "enumerations_checked": agg["enumerations_checked"], "field_value_probes": agg["field_probes"], "nested_message_type_probes": agg["nested_probes"], "hostile_inputs_decoded": agg["hostile_decoded"], "hostile_inputs_rejected": agg["hostile_rejected"],
+            "type_urls_checked": agg["urls_checked"], "enumerations_checked": agg["enumerations_checked"], "field_value_probes": agg["field_probes"], "nested_message_type_probes": agg["nested_probes"], "wide_value_probes": agg["wide_probes"], "hostile_inputs_decoded": agg["hostile_decoded"], "hostile_inputs_rejected": agg["hostile_rejected"],
             "types_not_in_pinned_schema": sorted(unpinned)[:50], "pinned_types_missing": agg["missing"],
             "random_instances_per_type": random_n, "miri_lane": miri, "build_s": round(bt, 1),
         },
